@@ -324,6 +324,29 @@ pub fn verif_parse_txt_payload(payload: &str) -> Result<Vec<ScionIpAddr>, String
     parse_txt_payload(payload).map_err(|err| err.to_string())
 }
 
+/// Verification hook (feature `verif-hooks`, off by default): the record level of
+/// [`ScionTxtDnsResolver::resolve`] after the DNS lookup, on caller-supplied TXT resource records
+/// (each one a list of character-strings). Every record goes through the private
+/// `txt_record_to_string` and the collected strings and decoding failures through the private
+/// `resolve_txt_records_with_invalid`, exactly as `resolve` does with the records of a lookup.
+#[cfg(feature = "verif-hooks")]
+pub fn verif_resolve_txt_rrs(
+    domain: &str,
+    rrs: &[Vec<Vec<u8>>],
+) -> Result<Vec<ScionIpAddr>, ResolveError> {
+    let mut txt_records = Vec::new();
+    let mut invalid_entries = Vec::new();
+    for rr in rrs {
+        let txt = TXT::from_bytes(rr.iter().map(Vec::as_slice).collect());
+        match txt_record_to_string(&txt) {
+            Ok(txt_record) => txt_records.push(txt_record),
+            Err(err) => invalid_entries.push(err),
+        }
+    }
+
+    resolve_txt_records_with_invalid(domain, txt_records, invalid_entries)
+}
+
 fn txt_record_to_string(txt: &TXT) -> Result<String, InvalidEntry> {
     let bytes: Vec<u8> = txt
         .txt_data()
